@@ -163,7 +163,10 @@ class SessionCheck(Check):
     rule = ("one run = one seeded history of 12-60 operations in a warm interpreter with <=4 live objects: "
             "create sphere grid (8 algorithms) / full grid, getter calls in any order and repetition, prefix "
             "comparisons N vs N+M, drops, with faults between operations (global RNG reseed / draw / foreign state / "
-            "library seed constants, clock jump, restart in a cold interpreter under another PYTHONHASHSEED). "
+            "library seed constants, clock jump, restart in a cold interpreter under another PYTHONHASHSEED), auxiliary "
+            "public calls in between (PositionVoronoi, related half Voronoi, index helpers, names, raw Voronoi getters, "
+            "from_full_array_to_o_b_t), full-grid twins with equal names but another factor / position mode / spelling "
+            "of the radii. "
             "Non-trivial: >=1 fault fired or >=2 objects alive at once, and >=1 observation compared with the "
             "cold reference. Distinct = distinct hash of the sequence of (op kind, spec, getter, fault kind).")
     components = {"real": ["molgri.space.rotobj / polytopes / voronoi / fullgrid / translations, molgri.naming",
@@ -702,7 +705,9 @@ class PolytopeCheck(Check):
     engine = "session"
     rule = ("one run = one seeded subdivision history of 1-2 live polytopes of one type (ico, cube3D to level 3/4, "
             "cube4D to level 1/2): divide_edges, get_nodes(N?, projection?), get_half_of_hypercube(N?, projection?), "
-            "get_nodes(N > available), interleaved between the instances, with global-RNG faults between operations. "
+            "get_nodes(N > available), interleaved between the instances (also of different solids, also created mid-history), "
+            "deepcopy/pickle clones continuing the history, auxiliary public calls (cells, adjacency, cdist, neighbours, "
+            "N-element graph), a varying amount of observation after each subdivision, global-RNG faults in between. "
             "After every operation: node set == independently built ideal lattice (KD-tree, 1e-9), projection, "
             "negation closure, append-only index log, level order, prefix and half-selection invariants. "
             "Non-trivial: >=1 divide and (>=1 fault fired or 2 instances interleaved). Distinct = distinct hash of "
